@@ -750,6 +750,9 @@ class Screen(BaseScreen, RealTerminal):
         last_cols = str_util.calc_width(last_text, 0, len(last_text))
         last_offs, z_col = str_util.calc_text_pos(last_text, 0, len(last_text), last_cols - 1)
         if last_offs == 0:
+            if len(row) < 2:
+                # a single glyph fills the whole row: there is nothing to slide into place
+                return row, 0, None
             z_text = last_text
             del new_row[-1]
             # we need another segment
@@ -770,7 +773,8 @@ class Screen(BaseScreen, RealTerminal):
                 new_row.append((y_attr, y_cs, last_text[:nlast_offs]))
 
         new_row.append((z_attr, z_cs, z_text))
-        return new_row, z_col - y_col, (y_attr, y_cs, y_text)
+        # Z was drawn where Y belongs: step back over Z (not over Y, their widths may differ)
+        return new_row, str_util.calc_width(z_text, 0, len(z_text)), (y_attr, y_cs, y_text)
 
     def clear(self) -> None:
         """
